@@ -16,7 +16,7 @@ import (
 func init() { Registry["C07"] = c07 }
 
 func c07(c *core.Ctx) map[string]interface{} {
-	c.Explanation = "Static table/layout/coverage check of the NAS algorithms (C07). Decided: (R7.sbox) the 2x256 SNOW 3G S-box literals equal the tables the checker generates from their algebraic definitions (Rijndael S-box; Dickson polynomial box of TS 35.216 3.3.2); (R7.const) MULalpha/DIValpha exponents 23,245,48,239 / 16,39,6,64 over 0xA9 in byte positions 3..0, MULx semantics, S1/S2 byte recombination with 0x1B/0x69 as GF(2)-linear forms of the S-box outputs, LFSR feedback taps (s0<<8, MULa(s0>>24), s2, s11>>8, DIVa(s11&0xff) [,F]), FSM update, key/IV loading table of InitSnow3g (TS 35.216 3.4.1), 32 initialisation clocks and one discarded keystream clock; (R7.iv) IV/counter-block bit layouts of NEA1, NIA1, NEA2, NIA2 (TS 35.215, TS 33.401 B.1/B.2) under the BEARER<32/DIRECTION<2 guards, which are checked; dispatch of algorithm ids 0/1/2; NEA0 leaves the payload untouched; ciphertext copied back over the whole payload; CMAC truncated to 4 octets; (R7.shift) no shift in security/snow3g whose count can reach the operand width (keystream truncation covers every octet); (R7.fresh) every call starts from a fully re-initialised generator: InitSnow3g writes all 16 LFSR cells and all 3 FSM registers before anything reads them, and NEA1/NIA1 call it before GenerateKeystream. (R7.gf64) the GF(2^64) helpers of EIA1: MULx tests bit 63, MULxPOW is its i-fold application, MUL xors MULxPOW(V,i,c) for exactly the set bits i = 0..63 of P (indexed or iterative spelling); (R7.nia1-blocks / R7.nia1-horner) for every LENGTH mod 64 the block loop folds the right number of 64-bit blocks at the right offsets and never skips the Horner step Eval := (Eval xor M) * P. (R7.const, partition) where MULx, MULxPOW, MULalpha, DIValpha are not spelled in the recognised algebraic form (tables filled by an initialiser, branch-free masks) they are folded for all 256 arguments (and the constants in use) and compared with the definition; S1/S2 are decided bit by bit with MULx entered. (R7.iv, NEA1 application, partition) NEA1 is folded for every LENGTH of 1..160 bits and 16 larger ones with symbolic input and keystream (the generator modelled by its clock, every GenerateKeystream call discarding one word): output octet e is input octet e xor octet e mod 4 of keystream word e div 4 for the first LENGTH bits; the loop-form rule extends this to every LENGTH when the loops are of the recognised form. Package-level tables are read as what the package initialiser left in them when nothing can write them afterwards. NOT decided: bit-exact equality of the complete algorithms with the 3GPP specifications (GF(2^64) evaluation and message-block arithmetic of NIA1, keystream application loops are only checked for the listed structural facts); AES, CTR and CMAC come from crypto/aes, crypto/cipher and github.com/aead/cmac (trusted)."
+	c.Explanation = "Static table/layout/coverage check of the NAS algorithms (C07). Decided: (R7.sbox) the 2x256 SNOW 3G S-box literals equal the tables the checker generates from their algebraic definitions (Rijndael S-box; Dickson polynomial box of TS 35.216 3.3.2); (R7.const) MULalpha/DIValpha exponents 23,245,48,239 / 16,39,6,64 over 0xA9 in byte positions 3..0, MULx semantics, S1/S2 byte recombination with 0x1B/0x69 as GF(2)-linear forms of the S-box outputs, LFSR feedback taps (s0<<8, MULa(s0>>24), s2, s11>>8, DIVa(s11&0xff) [,F]), FSM update, key/IV loading table of InitSnow3g (TS 35.216 3.4.1), 32 initialisation clocks and one discarded keystream clock; (R7.iv) IV/counter-block bit layouts of NEA1, NIA1, NEA2, NIA2 (TS 35.215, TS 33.401 B.1/B.2) under the BEARER<32/DIRECTION<2 guards, which are checked; dispatch of algorithm ids 0/1/2; NEA0 leaves the payload untouched; ciphertext copied back over the whole payload; CMAC truncated to 4 octets; (R7.shift) no shift in security/snow3g whose count can reach the operand width (keystream truncation covers every octet); (R7.fresh) every call starts from a fully re-initialised generator: InitSnow3g writes all 16 LFSR cells and all 3 FSM registers before anything reads them, and NEA1/NIA1 call it before GenerateKeystream. (R7.gf64) the GF(2^64) helpers of EIA1: MULx tests bit 63, MULxPOW is its i-fold application, MUL xors MULxPOW(V,i,c) for exactly the set bits i = 0..63 of P (indexed or iterative spelling); (R7.nia1-blocks / R7.nia1-horner) for every LENGTH mod 64 the block loop folds the right number of 64-bit blocks at the right offsets and never skips the Horner step Eval := (Eval xor M) * P; the block count is decided on NIA1 folded for 36 fixed (LENGTH, message octets) cases with symbolic octets and keystream, the GF(2^64) product summarised - ceil(LENGTH/64) products by P of (Eval xor the next eight octets, most significant first, zeros after the end of the message), one of (Eval xor LENGTH) by Q, all modulo 0x1b - whatever the form of the loops (the residue-class reading of the loop bounds is the fallback, and the same cases decide P-Q and MAC when the symbolic iteration does not finish). (R7.const, partition) where MULx, MULxPOW, MULalpha, DIValpha are not spelled in the recognised algebraic form (tables filled by an initialiser, branch-free masks) they are folded for all 256 arguments (and the constants in use) and compared with the definition; S1/S2 are decided bit by bit with MULx entered. (R7.iv, NEA1 application, partition) NEA1 is folded for every LENGTH of 1..160 bits and 16 larger ones with symbolic input and keystream (the generator modelled by its clock, every GenerateKeystream call discarding one word): output octet e is input octet e xor octet e mod 4 of keystream word e div 4 for the first LENGTH bits; the loop-form rule extends this to every LENGTH when the loops are of the recognised form. Package-level tables are read as what the package initialiser left in them when nothing can write them afterwards. NOT decided: bit-exact equality of the complete algorithms with the 3GPP specifications (GF(2^64) evaluation and message-block arithmetic of NIA1, keystream application loops are only checked for the listed structural facts); AES, CTR and CMAC come from crypto/aes, crypto/cipher and github.com/aead/cmac (trusted)."
 	c.Assumptions = []string{"crypto/aes, crypto/cipher.NewCTR and github.com/aead/cmac implement AES-128, CTR mode and CMAC",
 		"S-box definitions: SR = Rijndael S-box (inverse in GF(2^8) mod 0x11B + affine map); SQ(x) = x + x^9 + x^13 + x^15 + x^33 + x^41 + x^45 + x^47 + x^49 + 0x25 in GF(2^8) mod 0x169 (TS 35.216 3.3.2)"}
 	r7sbox(c)
@@ -936,6 +936,13 @@ func r7nia1eval(c *core.Ctx, R string, fn *ssa.Function) {
 	if r7nia1X(c, R, fn) {
 		return
 	}
+	if v := nia1PartitionOf(fn); v.usable {
+		// the symbolic iteration did not finish, the fixed-length cases do (c07nia1p.go)
+		c.Check(v.pq == "", R, "security.NIA1:P-Q", fn.Pos(), fmt.Sprintf("%d fixed-length cases: every block multiplied by P, (Eval xor LENGTH) by Q, polynomial 0x1B", v.cases),
+			"EIA1 must multiply by P=z1||z2 (message blocks) and by Q=z3||z4 (after adding LENGTH) modulo x^64+x^4+x^3+x+1: %s", v.pq)
+		c.Check(v.mac == "", R, "security.NIA1:mac", fn.Pos(), "MAC-I = high 32 bits of ((EVAL ^ LENGTH) * Q) ^ z5, most significant octet first", "EIA1 MAC must be the high half of ((EVAL^LENGTH)*Q) xor z5: %s", v.mac)
+		return
+	}
 	p := core.NewPather(fn)
 	z := "local:*[5]uint32#0[:5]"
 	P := "((" + z + "[0]<<32)|" + z + "[1])"
@@ -1148,6 +1155,7 @@ func r7nia1blocks(c *core.Ctx) {
 	c.Rule(R, "NIA1: for every LENGTH mod 64 the loop folds ceil(LENGTH/64)-1 full blocks and the final block starts at octet 8*(ceil(LENGTH/64)-1)")
 	fn := mustFunc(c, pSec, "NIA1")
 	p := core.NewPather(fn)
+	top := fn
 	// the block loop may live in a helper of the package that NIA1 hands the message and its bit
 	// length to: the rule then reads the helper, with the two parameters found through the call
 	msgP, lenP := "p4", "p5"
@@ -1197,6 +1205,14 @@ func r7nia1blocks(c *core.Ctx) {
 		}
 	}
 	r7nia1horner(c, fn, p)
+	if v := nia1PartitionOf(top); v.usable {
+		// decided on the folded function, whatever the form of its loops (c07nia1p.go)
+		c.Check(v.blocks == "", R, "security.NIA1:block-count", top.Pos(), fmt.Sprintf("%d (LENGTH, message octets) cases folded: ceil(LENGTH/64) blocks of 8 octets, most significant first, the last one zero-padded", v.cases),
+			"EIA1 message splitting is wrong: %s", v.blocks)
+		return
+	} else {
+		c.Note("%s: fixed-length model of NIA1 not used (%s)", R, v.unusable)
+	}
 	if limit != nil && idxLoop != nil && idxTail == nil {
 		// unified form: one loop over all ceil(LENGTH/64) blocks, the block read being zero-padded
 		// when fewer than 8 octets remain (a copy into a fresh 8-octet buffer)
